@@ -30,6 +30,7 @@ Inductive trap :=
 | TrapCompact       (* rehash's internal check(j == self.size) *)
 | TrapMem           (* internal access outside the allocated storage: memory corruption *)
 | TrapUnpack        (* 'unpack out of range' *)
+| TrapOOM           (* panic 'out of memory': a refused (re)allocation in xspanrealloc / xspanalloc / new *)
 | TrapFuel.         (* fuel exhausted: the real loop would not terminate *)
 
 Inductive res (A : Type) :=
@@ -256,6 +257,44 @@ Section Vector.
     | OConvert xs => Ok (xs, RUnit)
     | OUnpack _ _ => Ok (l, RUnit)
     end.
+  (* ---- a refusing allocator.  [ok n] tells whether a request for n elements is granted.  vector only uses
+     xspanrealloc / xspanalloc, which panic ('out of memory') on a refused request, before anything is changed. *)
+  Definition vec_newcap (c : nat) : nat := if c =? 0 then VEC_INIT_CAP_n else c * VEC_GROW_MUL_n.
+  Definition vec_grow_a (ok : nat -> bool) (v : vec) : res vec :=
+    if ok (vec_newcap (vec_cap v)) then vec_grow v else Trap TrapOOM.
+  Definition vec_reserve_a (ok : nat -> bool) (n : nat) (v : vec) : res vec :=
+    if n <=? vec_cap v then Ok v else if ok n then Ok (vec_reserve n v) else Trap TrapOOM.
+  Definition vec_resize_a (ok : nat -> bool) (n : nat) (v : vec) : res vec :=
+    v1 <- vec_reserve_a ok n v ;;
+    d <- (if vsize v1 <? n then sfill (vsize v1) (n - vsize v1) dflt (vdata v1) else Ok (vdata v1)) ;;
+    Ok (mkvec d n).
+  Definition vec_copy_a (ok : nat -> bool) (v : vec) : res vec :=
+    if 0 <? vsize v then (if ok (vec_cap v) then Ok (vec_copy v) else Trap TrapOOM) else Ok vec_empty.
+  Definition vec_push_a (ok : nat -> bool) (x : T) (v : vec) : res vec :=
+    let newsize := S (vsize v) in
+    v1 <- (if vec_cap v <? newsize then vec_grow_a ok v else Ok v) ;;
+    d <- sset (vsize v) x (vdata v1) ;;
+    Ok (mkvec d newsize).
+  Definition vec_insert_a (ok : nat -> bool) (pos : nat) (x : T) (v : vec) : res vec :=
+    if vsize v <? pos then Trap TrapPos else
+    v1 <- (if vec_cap v <=? vsize v + 1 then vec_grow_a ok v else Ok v) ;;
+    d1 <- (if pos <? vsize v then smove (pos + 1) pos (vsize v - pos) (vdata v1) else Ok (vdata v1)) ;;
+    d2 <- sset pos x d1 ;;
+    Ok (mkvec d2 (vsize v + 1)).
+  Definition vec_convert_a (ok : nat -> bool) (xs : list T) : res vec :=
+    v1 <- vec_reserve_a ok (length xs) vec_empty ;;
+    d <- fill_from 0 xs (vdata v1) ;;
+    Ok (mkvec d (length xs)).
+  Definition vec_step_a (ok : nat -> bool) (o : cop) (v : vec) : res (vec * cret) :=
+    match o with
+    | OPush x => v' <- vec_push_a ok x v ;; Ok (v', RUnit)
+    | OInsert pos x => v' <- vec_insert_a ok pos x v ;; Ok (v', RUnit)
+    | OResize n => v' <- vec_resize_a ok n v ;; Ok (v', RUnit)
+    | OReserve n => v' <- vec_reserve_a ok n v ;; Ok (v', RUnit)
+    | OCopy => v' <- vec_copy_a ok v ;; Ok (v', RUnit)
+    | OConvert xs => v' <- vec_convert_a ok xs ;; Ok (v', RUnit)
+    | _ => vec_step o v
+    end.
 End Vector.
 
 (* ------------------------------------------------------------------ sequence.nelua *)
@@ -450,6 +489,68 @@ Section Sequence.
                        then Ok ((z, l), RVals _ (firstn (j - i + 1) (skipn (i - 1) l))) else Trap TrapUnpack
     end.
   Definition seq_slot0 (s : seq) : T := match sdata s with x :: _ => x | [] => dflt end.
+  (* ---- a refusing allocator: [oki] = the request for the implementation record (allocator:new, raises an error
+     when refused), [ok n] = a request for n elements (xspanrealloc / xspanalloc, panic when refused) *)
+  Definition seq_newcap (c : nat) : nat := if c =? 0 then SEQ_INIT_CAP_n else c * SEQ_GROW_MUL_n.
+  Definition seq_init_a (oki : bool) (s : seq) : res seq :=
+    if sinit s then Ok s else if oki then Ok (seq_init s) else Trap TrapOOM.
+  Definition seq_grow_a (ok : nat -> bool) (s : seq) : res seq :=
+    if ok (seq_newcap (seq_capn s)) then seq_grow s else Trap TrapOOM.
+  Definition seq_reserve_a (oki : bool) (ok : nat -> bool) (n : nat) (s0 : seq) : res seq :=
+    s <- seq_init_a oki s0 ;;
+    if n + 1 <=? seq_capn s then Ok s else if ok (n + 1) then seq_reserve n s else Trap TrapOOM.
+  Definition seq_resize_a (oki : bool) (ok : nat -> bool) (n : nat) (s0 : seq) : res seq :=
+    s <- seq_reserve_a oki ok n s0 ;;
+    d <- (if ssize s <? n then sfill (ssize s + 1) (n - ssize s) dflt (sdata s) else Ok (sdata s)) ;;
+    Ok (mkseq true d n).
+  Definition seq_copy_a (oki : bool) (ok : nat -> bool) (s : seq) : res seq :=
+    if sinit s then
+      if oki then (if (seq_capn s =? 0) || ok (seq_capn s) then Ok (seq_copy s) else Trap TrapOOM) else Trap TrapOOM
+    else Ok seq_empty.
+  Definition seq_push_a (oki : bool) (ok : nat -> bool) (x : T) (s0 : seq) : res seq :=
+    s <- seq_init_a oki s0 ;;
+    let sz := ssize s + 1 in
+    s1 <- (if seq_capn s <=? sz + 1 then seq_grow_a ok (mkseq true (sdata s) sz) else Ok (mkseq true (sdata s) sz)) ;;
+    d <- sset sz x (sdata s1) ;;
+    Ok (mkseq true d sz).
+  Definition seq_insert_a (oki : bool) (ok : nat -> bool) (pos : nat) (x : T) (s0 : seq) : res seq :=
+    s <- seq_init_a oki s0 ;;
+    if (pos =? 0) || (ssize s + 1 <? pos) then Trap TrapPos else
+    s1 <- (if seq_capn s <=? ssize s + 2 then seq_grow_a ok s else Ok s) ;;
+    let sz := ssize s + 1 in
+    d1 <- (if pos <? sz then smove (pos + 1) pos (sz - pos) (sdata s1) else Ok (sdata s1)) ;;
+    d2 <- sset pos x d1 ;;
+    Ok (mkseq true d2 sz).
+  Definition seq_atindex_a (oki : bool) (ok : nat -> bool) (pos : nat) (s0 : seq) : res seq :=
+    s <- seq_init_a oki s0 ;;
+    if ssize s <? pos then
+      if negb (pos =? ssize s + 1) then Trap TrapPos else
+      let sz := ssize s + 1 in
+      s1 <- (if seq_capn s <? sz + 1 then seq_grow_a ok (mkseq true (sdata s) sz) else Ok (mkseq true (sdata s) sz)) ;;
+      d <- sset pos dflt (sdata s1) ;;
+      Ok (mkseq true d sz)
+    else if (seq_capn s =? 0) && (pos =? 0) then seq_grow_a ok s
+    else Ok s.
+  Definition seq_get_a (oki : bool) (ok : nat -> bool) (pos : nat) (s0 : seq) : res (seq * T) :=
+    s <- seq_atindex_a oki ok pos s0 ;; x <- sget pos (sdata s) ;; Ok (s, x).
+  Definition seq_set_a (oki : bool) (ok : nat -> bool) (pos : nat) (x : T) (s0 : seq) : res seq :=
+    s <- seq_atindex_a oki ok pos s0 ;; d <- sset pos x (sdata s) ;; Ok (mkseq (sinit s) d (ssize s)).
+  Definition seq_convert_a (oki : bool) (ok : nat -> bool) (xs : list T) : res seq :=
+    s1 <- seq_reserve_a oki ok (length xs) seq_empty ;;
+    d <- fill_from T 1 xs (sdata s1) ;;
+    Ok (mkseq true d (length xs)).
+  Definition seq_step_a (oki : bool) (ok : nat -> bool) (o : cop T) (s : seq) : res (seq * cret T) :=
+    match o with
+    | OPush _ x => s' <- seq_push_a oki ok x s ;; Ok (s', RUnit _)
+    | OInsert _ pos x => s' <- seq_insert_a oki ok pos x s ;; Ok (s', RUnit _)
+    | OResize _ n => s' <- seq_resize_a oki ok n s ;; Ok (s', RUnit _)
+    | OReserve _ n => s' <- seq_reserve_a oki ok n s ;; Ok (s', RUnit _)
+    | OCopy _ => s' <- seq_copy_a oki ok s ;; Ok (s', RUnit _)
+    | OAt _ pos => p <- seq_get_a oki ok pos s ;; Ok (fst p, RVal _ (snd p))
+    | OAssign _ pos x => s' <- seq_set_a oki ok pos x s ;; Ok (s', RUnit _)
+    | OConvert _ xs => s' <- seq_convert_a oki ok xs ;; Ok (s', RUnit _)
+    | _ => seq_step o s
+    end.
 End Sequence.
 
 (* ------------------------------------------------------------------ hashmap.nelua *)
@@ -794,6 +895,71 @@ Section HashMap.
     | HMapVals f => Ok (map (fun kv => (fst kv, f (snd kv))) al, HUnit)
     | HDestroy => Ok ([], HUnit)
     end.
+  (* ---- a refusing allocator.  rehash reallocates the node array (xspanrealloc0) and then the bucket array
+     (xspanrealloc); a refused request panics ('out of memory').  [hm_rehash_sizes] are the two requested sizes;
+     [okn]/[okb] tell whether a request for that many nodes / buckets is granted. *)
+  Definition hm_rehash_sizes (bucket_count : nat) (m : hmap) : option (nat * nat) :=
+    let minb := ceilidiv (hsize m * 100) HM_MAXLF_n in
+    let bc0 := if bucket_count <? minb then minb else bucket_count in
+    let bcz := roundpow2 (Z.of_nat bc0) in
+    if (bcz <? Z.of_nat bc0)%Z then None else
+    let bc := Z.to_nat bcz in
+    let nc0 := ceilidiv (bc * HM_MAXLF_n) 100 in
+    Some (bc, if (0 <? bc) && (nc0 <=? hsize m) then hsize m + 1 else nc0).
+  Definition hm_rehash_a (okn okb : nat -> bool) (bucket_count : nat) (m : hmap) : res hmap :=
+    match hm_rehash_sizes bucket_count m with
+    | None => hm_rehash bucket_count m
+    | Some (bc, nc) => if okn nc && okb bc then hm_rehash bucket_count m else Trap TrapOOM
+    end.
+  Definition hm_reserve_a (okn okb : nat -> bool) (count : nat) (m : hmap) : res hmap :=
+    let bc := ceilidiv (count * 100) HM_MAXLF_n in
+    if length (hbuckets m) <? bc then hm_rehash_a okn okb bc m else Ok m.
+  Definition hm_at_a (okn okb : nat -> bool) (key : K) (m0 : hmap) : res (hmap * nat) :=
+    m <- (if length (hbuckets m0) =? 0 then hm_rehash_a okn okb HM_INIT_n m0 else Ok m0) ;;
+    r <- hm_find key m ;;
+    let '(ni, prev, bi) := r in
+    match ni with
+    | Some i => Ok (m, i)
+    | None =>
+        match hfree m with
+        | None => Trap TrapNoSpace
+        | Some fi =>
+            if length (hnodes m) <=? fi then Trap TrapNoSpace else
+            nd <- sget fi (hnodes m) ;;
+            let fr := nnext nd in
+            ns <- sset fi (mknode key vdflt true None) (hnodes m) ;;
+            m1 <- (match prev with
+                   | None => b <- sset bi (Some fi) (hbuckets m) ;; Ok (mkhm b ns (hsize m) fr)
+                   | Some p => pn <- sget p ns ;;
+                               ns' <- sset p (set_next (Some fi) pn) ns ;;
+                               Ok (mkhm (hbuckets m) ns' (hsize m) fr)
+                   end) ;;
+            let sz := hsize m + 1 in
+            let m2 := mkhm (hbuckets m1) (hnodes m1) sz (hfree m1) in
+            m3 <- (if length (hbuckets m2) * HM_MAXLF_n <=? sz * 100
+                   then hm_rehash_a okn okb (ceilidiv (sz * HM_GROW_n) HM_MAXLF_n) m2 else Ok m2) ;;
+            Ok (m3, fi)
+        end
+    end.
+  Definition hm_set_a (okn okb : nat -> bool) (key : K) (v : V) (m : hmap) : res hmap :=
+    p <- hm_at_a okn okb key m ;;
+    let (m1, i) := p in
+    nd <- sget i (hnodes m1) ;;
+    ns <- sset i (set_val v nd) (hnodes m1) ;;
+    Ok (mkhm (hbuckets m1) ns (hsize m1) (hfree m1)).
+  Definition hm_get_a (okn okb : nat -> bool) (key : K) (m : hmap) : res (hmap * V) :=
+    p <- hm_at_a okn okb key m ;;
+    let (m1, i) := p in
+    nd <- sget i (hnodes m1) ;;
+    Ok (m1, nval nd).
+  Definition hm_step_a (okn okb : nat -> bool) (o : hop) (m : hmap) : res (hmap * hret) :=
+    match o with
+    | HSet k v => m' <- hm_set_a okn okb k v m ;; Ok (m', HUnit)
+    | HGet k => p <- hm_get_a okn okb k m ;; Ok (fst p, HVal (snd p))
+    | HReserve n => m' <- hm_reserve_a okn okb n m ;; Ok (m', HUnit)
+    | HRehash n => m' <- hm_rehash_a okn okb n m ;; Ok (m', HUnit)
+    | _ => hm_step o m
+    end.
 End HashMap.
 
 (* ------------------------------------------------------------------ list.nelua *)
@@ -1007,6 +1173,13 @@ Section DList.
     | LEraseNil => Trap TrapNilNode
     | LDestroy => Ok ([], LUnit)
     end.
+  (* ---- a refusing allocator: every push / insert allocates one node with allocator:new, which raises an error
+     when the request is refused ([okn]) *)
+  Definition dl_step_a (okn : bool) (o : lop) (l : dlist) : res (dlist * lret) :=
+    match o with
+    | LPushFront _ | LPushBack _ | LInsertBefore _ _ => if okn then dl_step o l else Trap TrapOOM
+    | _ => dl_step o l
+    end.
 End DList.
 
 (* ------------------------------------------------------------------ span.nelua *)
@@ -1103,8 +1276,17 @@ Section StringBuilder.
   | BRollback (n : nat) | BResize (n : nat) | BClear | BPromote
   | BCommitOver (n d : nat)          (* prepare(n); commit(span.size + 1 + d): more than was prepared *)
   | BPrepare (n : nat)
-  | BDestroy.
+  | BDestroy
+  | BWriteParts (parts : list (list Z)).   (* write(a1, a2, ...): every argument rendered to its bytes (integers in
+                                             decimal by strconv.int2str, booleans as true/false, strings/spans as is) *)
   Inductive bret := BUnit | BBool (b : bool) | BOkN (b : bool) (n : nat) | BBytes (l : list Z).
+
+  (* the varargs loop of write: each non-empty argument is prepared, copied and accounted *)
+  Fixpoint sb_write_parts (parts : list (list Z)) (written : nat) (b : sb) : res (sb * bret) :=
+    match parts with
+    | [] => Ok (b, BOkN true written)
+    | xs :: tl => b1 <- sb_write xs b ;; sb_write_parts tl (written + length xs) b1
+    end.
 
   Definition sb_step (o : bop) (b : sb) : res (sb * bret) :=
     match o with
@@ -1118,6 +1300,7 @@ Section StringBuilder.
     | BCommitOver n d => p <- sb_prepare n b ;; b' <- sb_commit (snd p + 1 + d) (fst p) ;; Ok (b', BUnit)
     | BPrepare n => p <- sb_prepare n b ;; Ok (fst p, BUnit)
     | BDestroy => Ok (sb_empty, BUnit)
+    | BWriteParts parts => sb_write_parts parts 0 b
     end.
 
   (* the byte string the builder implements *)
@@ -1133,6 +1316,7 @@ Section StringBuilder.
     | BCommitOver n d => Trap TrapNoSpace
     | BPrepare n => Ok (l, BUnit)
     | BDestroy => Ok ([], BUnit)
+    | BWriteParts parts => Ok (l ++ concat parts, BOkN true (length (concat parts)))
     end.
   (* ---- allocation failure.  [ok n] tells whether the allocator grants a block of n bytes; a refused
      (re)allocation leaves the span as it was (allocator.nelua spanrealloc0).  stringbuilderT_grow then returns
@@ -1156,15 +1340,26 @@ Section StringBuilder.
     let (b1, r) := g in
     if r then Ok (b1, Some (length (sbdata b1) - sbsize b1 - 1)) else Ok (b1, None).
 
+  (* one argument of write under a refusing allocator: (builder, whether it was written) *)
+  Definition sb_write_a (ok : nat -> bool) (xs : list Z) (b : sb) : res (sb * bool) :=
+    if length xs =? 0 then Ok (b, true) else
+    p <- sb_prepare_a ok (length xs) b ;;
+    match snd p with
+    | None => Ok (fst p, false)
+    | Some _ => b1 <- sb_poke xs (fst p) ;; Ok (mksb (sbdata b1) (sbsize b1 + length xs), true)
+    end.
+  (* write(a1, a2, ...) stops at the first argument that cannot be stored: `return false, written` *)
+  Fixpoint sb_write_parts_a (ok : nat -> bool) (parts : list (list Z)) (written : nat) (b : sb) : res (sb * bret) :=
+    match parts with
+    | [] => Ok (b, BOkN true written)
+    | xs :: tl => r <- sb_write_a ok xs b ;;
+                  if snd r then sb_write_parts_a ok tl (written + length xs) (fst r) else Ok (fst r, BOkN false written)
+    end.
+
   Definition sb_step_a (ok : nat -> bool) (o : bop) (b : sb) : res (sb * bret) :=
     match o with
-    | BWrite xs =>
-        if length xs =? 0 then Ok (b, BOkN true 0) else
-        p <- sb_prepare_a ok (length xs) b ;;
-        match snd p with
-        | None => Ok (fst p, BOkN false 0)
-        | Some _ => b1 <- sb_poke xs (fst p) ;; Ok (mksb (sbdata b1) (sbsize b1 + length xs), BOkN true (length xs))
-        end
+    | BWrite xs => r <- sb_write_a ok xs b ;; Ok (fst r, if snd r then BOkN true (length xs) else BOkN false 0)
+    | BWriteParts parts => sb_write_parts_a ok parts 0 b
     | BWriteByte c n =>
         if n =? 0 then Ok (b, BBool true) else
         p <- sb_prepare_a ok n b ;;
@@ -1246,6 +1441,23 @@ Section Hash.
     let '(m, ne) := f_frexp63 bits in
     let u := w64 (w64 m + w64 ne) in
     if u <? 2 ^ 63 - 1 then u else M64 - 1 - u.
+
+  (* records without __hash and arrays: the element/field hashes folded with hash.combine (0 when there is none) *)
+  Definition hash_fold (hs : list Z) : Z :=
+    match hs with
+    | [] => 0
+    | h :: tl => fold_left hash_combine tl h
+    end.
+  Definition hash_array {A : Type} (elem_hash : A -> Z) (xs : list A) : Z := hash_fold (map elem_hash xs).
+  (* pointers: the address shifted by floor(log2(1 + size of the pointee)) (4 for untyped pointers) *)
+  Definition hash_ptr (addr shift : Z) : Z := Z.shiftr (w64 addr) shift.
+  (* spans and unions: hash.long over their bytes; 64-bit little-endian bytes of an integer element *)
+  Definition le_bytes8 (v : Z) : list Z :=
+    map (fun i => Z.land (Z.shiftr (w64 v) (8 * Z.of_nat i)) 255) [0; 1; 2; 3; 4; 5; 6; 7]%nat.
+  Definition hash_span_int (xs : list Z) : Z := hash_long (concat (map le_bytes8 xs)).
+  Definition hash_union8 (v : Z) : Z := hash_long (le_bytes8 v).
+  (* a record with a __hash metamethod hashes to whatever the method returns *)
+  Definition hash_custom {A : Type} (user_hash : A -> Z) (v : A) : Z := w64 (user_hash v).
 
   (* record{a: integer, b: number}: field-wise hash and equality *)
   Definition hash_rec (a : Z) (fbits : Z) : Z := hash_combine (hash_int a) (hash_float fbits).
